@@ -53,9 +53,9 @@ def abstract(text):
 def compare_abstract(A, B, report, approx_changed=True):
     if A["net"].get("axes-xy") != B["net"].get("axes-xy") or A["net"].get("angles") != B["net"].get("angles"):
         report("export_conventions", "axes/angles %s -> %s" % (A["net"], B["net"]))
-    for k in ("sigma-apr", "conf-pr", "tol-abs", "sigma-act"):
+    for k in ("sigma-apr", "conf-pr", "tol-abs", "sigma-act", "latitude", "ellipsoid", "algorithm", "cov-band"):
         va, vb = A["params"].get(k), B["params"].get(k)
-        if va is not None and (vb is None or (va != vb and abs(float(va) - float(vb)) > 1e-9 * abs(float(va)) if k != "sigma-act" else va != vb)):
+        if va is not None and (vb is None or (va != vb and abs(float(va) - float(vb)) > 1e-9 * abs(float(va)) if k not in ("sigma-act", "ellipsoid", "algorithm") else va != vb)):
             report("export_params", "parameter %s: %s -> %s" % (k, va, vb))
     if set(A["points"]) != set(B["points"]):
         report("export_points", "points %s -> %s" % (sorted(A["points"]), sorted(B["points"])))
@@ -167,7 +167,8 @@ def run(ctx):
         nruns += len(jobs)
         for i, run in zip(idx, runs):
             sv = surveys[i]
-            tag = "%s|round%d" % (ss[i]["net"]["t"], rd)
+            feats = "".join("+F%d" % e_["e"]["s"] for e_ in ss[i]["edits"] if e_["e"]["k"] == "InputFeatures")
+            tag = "%s%s|round%d" % (ss[i]["net"]["t"], feats, rd)
 
             def report(chk, msg, i=i, tag=tag, rd=rd):
                 ctx.violation("%s|%s" % (chk, tag), "session %d (%s), export round %d: %s" % (i, [e["e"]["k"] for e in ss[i]["edits"]], rd, msg),
